@@ -13,7 +13,7 @@ RULE = ("engine leg: every subset of the upper triangle / full grid as stored ma
         "api leg: real files, every window x output form x chunk size x store spelling; slice leg: every slice(a,b) / "
         "scalar / subscript form on n=4 vs numpy indexing. A case is non-trivial when the window meets >=1 stored (or "
         "mirrored) element and is not the whole matrix; distinct by construction (enumeration never repeats a case).")
-EXTRA_LEGS = "stored values of both signs (engine leg and field= column); balance axis: dense balance=True and sparse balance='KR' (divisive) windows == the same slice of the full balanced matrix; internal-engine legs are skipped (cap) if the internal interface was refactored." + ' all selectors of a case are taken from their Cooler objects before any of them is queried.'
+EXTRA_LEGS = "stored values of both signs (engine leg and field= column); balance axis: dense balance=True and sparse balance='KR' (divisive) windows == the same slice of the full balanced matrix; internal-engine legs are skipped (cap) if the internal interface was refactored." + ' all selectors of a case are taken from their Cooler objects before any of them is queried.' + " the second value column is called 'alt' (API leg) / 'aux' (engine leg): names that sort before the id columns in the HDF5 group listing."
 BOUNDS = {
     "quick": "engine: all upper patterns n<=4, all square patterns n<=3, structured n=5..7; chunk sizes {1,2,3,nnz,nnz+1,1e7}; "
              "api: all upper patterns n<=3 + structured n=4..6, both modes; slices n=4",
